@@ -950,7 +950,7 @@ def report(ctx, seen, sig, what, replay_obj, keep=3):
 
 
 def run(ctx):
-    ctx.build(FILES)
+    ctx.build_with_translator(FILES)
     rng = ctx.rng
     seen = {}
     quick = ctx.tier == 'quick'
